@@ -42,3 +42,11 @@ claim("C07", "blocking-operation census with release classes over the region Clo
       "Liveness is not decidable in general; decided is its release discipline for all backlogs and causes: every blocking operation executable by a goroutine that Close waits for (members before Done, awaited callees, built-in handlers, command API) is classified and must have a release that Close performs before waiting (context cancel, socket close, timer, inner join, drainer that outlives Wait, lock not held across Wait); no member calls the identity-less teardown after Done; queue consumers call the teardown on every exit; every successful connect makes fresh queues and wipes the tracker; Add/Done/spawn counts balance on every path. Four stale-Close sites (finding F12) are listed in known_findings.json.",
       "Assumes opaque user handlers return when library calls return and that listed library calls (logging, fmt, strings, SASL) do not block. No numeric time bound is claimed.",
       "DESIGN.md 5/C07")
+claim("C02", "panic-freedom obligations over the unrecovered region discharged by a linear-fact prover (Fourier-Motzkin over SSA integers and lengths); defer-dominance of the recovery hook; loop-exit rule (static analysis)",
+      "Decided for all byte strings: every index, slice, string index, unchecked type assertion, division, nil-map update, explicit panic and close in the region reachable from the connection goroutines, teardown and dispatch machinery without passing a recovered frame (plus Text/Target/Public on an arbitrary *Line and the default hook) is proved safe from branch facts, SSA definitions, stdlib axioms, callee return-site summaries, loop invariants and local memory value numbering; every handler invocation is under the recovery hook; a rejected line returns to the read loop; no lock is re-acquired while held. An unproven obligation is an alarm (sound: unproven => reported).",
+      "Not decided: nil-pointer dereference in general (no whole-program points-to available). Trusted: the stdlib axioms listed in bounds.go, go/ssa. Panics inside recovered handlers are not violations.",
+      "DESIGN.md 5/C02")
+claim("C11", "linear-fact proof (Fourier-Motzkin with callee summaries and loop invariants) of bounds, piece length and progress; structural partition identity (static analysis)",
+      "Decided for all texts and all SplitLen values: bounds safety of the splitting code, the 13/450 threshold, len(piece) <= effective SplitLen for every appended piece, cut index >= 1 (termination and non-empty pieces), the lossless cut shape msg[:i]+\"...\" / msg[i:] on the same msg and i with the remaining msg as final piece, and the four call sites passing text and Config.SplitLen and sending one line per piece.",
+      "Not decided: which admissible cut point is chosen (not part of the claim). Trusted: strings.LastIndex contract as an axiom; no integer overflow for string lengths.",
+      "DESIGN.md 5/C11")
